@@ -104,6 +104,19 @@ CLAIMS = {
          "delete_raggedarray checked on the implementation here, their model is C16's.",
          "Coq proof over executable models + in-Coq differential evaluation over the full operation matrix",
          "6.C11"),
+ 'C17': ("kernel-checked for every fault plan and EVERY crash state (inductive relation crash/rcrash: any "
+         "point between two file effects, or the effect in progress torn -- any prefix of written or "
+         "appended bytes, description/README being rewritten unparsable): Array append/iterappend incl. the "
+         "recovery path and the first-chunk path of empty arrays, truncate_array, RaggedArray "
+         "append/iterappend incl. recovery, truncate_raggedarray -- the state does not open, or shows the "
+         "state before, after, or before + a whole number of appended chunks/subarrays (C17_*_crash_safe; "
+         "the ragged proofs go through the index codec and the chain of index rows). Tie at effect "
+         "granularity: each scenario runs under sys.settrace with a directory snapshot at every executed "
+         "line of darr/*.py; the sequence of distinct on-disk states must equal the model's "
+         "Crash.trace_states (so a reordering, preallocation or extra write breaks the correspondence); "
+         "every observed state and synthesised torn variants are materialised and opened with Darr.",
+         "Coq proof over an effect-logging model with an inductive crash-state relation + traced state sequences compared in coqc",
+         "6.C17"),
  'C18': ("kernel-checked over Json.v, which follows _read_arraydescr / arrayinfotodtype / "
          "_check_arrayinfoconsistency check by check on generic JSON values: if Array() succeeds then the "
          "description is a dictionary with the required keys, a known numeric type, byte order, array "
